@@ -1,5 +1,5 @@
 (* C13 -- every pipe gets a consistent lifecycle and a unique id.  Statements only (more in progress). *)
-From MV Require Import Model.Core Model.CoreOracle Proofs.CoreProofs.
+From MV Require Import Model.Core Model.CoreOracle Proofs.CoreProofs Proofs.CoreInv.
 Open Scope N_scope.
 
 (* witness histories: closed during Attaching / refused by the protocol / closed during Attached / peer drop:
@@ -21,3 +21,29 @@ Print Assumptions C13_ids_released_old_refuted.
 Theorem C13_ids_released_on_witness : c10_oracle (kmodel_trace true true kinit c13_witness) = None.
 Proof. vm_compute. reflexivity. Qed.
 Print Assumptions C13_ids_released_on_witness.
+
+(* EVERY history of stimuli on the repaired core (pipe names fresh when first used -- the harness numbers pipes
+   consecutively): at every quiescent point the hook calls and protocol notifications that concern one pipe form
+   exactly one of five words -- never seen; closed during Attaching; refused by the protocol; attached and alive;
+   attached, then closed, protocol told, Detached -- so Attaching comes first and once, Attached/Detached at most
+   once and only for an accepted pipe, and a refused or early-closed pipe gets neither. *)
+Theorem C13_hook_language_all_histories : forall h p, fresh_hist kinit h ->
+  let e := evs p (all_obs (kmodel_trace true true kinit h)) in
+  e = [] \/ e = [HAttaching p; TClose p] \/ e = [HAttaching p; PAdd p false; TClose p] \/
+  e = [HAttaching p; PAdd p true; HAttached p] \/
+  e = [HAttaching p; PAdd p true; HAttached p; TClose p; PRemove p; HDetached p].
+Proof. exact hook_language_all_histories. Qed.
+Print Assumptions C13_hook_language_all_histories.
+
+(* ... hence the lifecycle oracle that the correspondence check applies to the implementation's traces accepts
+   every pipe of every model trace *)
+Theorem C13_lifecycle_oracle_all_histories : forall h, fresh_hist kinit h ->
+  let l := all_obs (kmodel_trace true true kinit h) in
+  forall p, In p (pipes_of l) -> c13_pipe_ok l p = true.
+Proof. exact c13_pipes_ok_all_histories. Qed.
+Print Assumptions C13_lifecycle_oracle_all_histories.
+
+(* the freshness premise is satisfiable: the witness history meets it *)
+Theorem C13_fresh_premise_witness : fresh_hist kinit c13_witness.
+Proof. exact fresh_hist_witness. Qed.
+Print Assumptions C13_fresh_premise_witness.
